@@ -29,6 +29,10 @@ func (s Schema) Values(t Term, budget int) []any {
 	var out []any
 	switch t.K {
 	case "scalar":
+		if pat, ok := stringPattern(t); ok {
+			out = patternValues(pat)
+			break
+		}
 		switch t.A {
 		case "string":
 			if t.Constr {
